@@ -93,8 +93,29 @@ def run_rel(chk, jobs, tag, workers=4, timeout=1500):
     """harness executes the jobs (sort / isort / perm / join / claims), TLC (RelTrace) judges every record."""
     jp, op = chk.path("jobs_%s.ndjson" % tag), chk.path("trace_%s.ndjson" % tag)
     lib.write_ndjson(jp, jobs)
-    lib.harness(["rel", jp, op], binary="bitrel", timeout=timeout)
-    recs = lib.read_ndjson(op)
+    # the harness is single-threaded: run contiguous chunks of the job list in parallel processes
+    nproc = 6 if len(jobs) > 2000 else 1
+    if nproc == 1:
+        lib.harness(["rel", jp, op], binary="bitrel", timeout=timeout)
+        recs = lib.read_ndjson(op)
+    else:
+        import concurrent.futures
+        lib.build_harness()
+        plain = [j for j in jobs if j.get("compiled") is None]
+        comp = [j for j in jobs if j.get("compiled") is not None]
+        size = (len(plain) + nproc - 1) // nproc
+        parts = []
+        for k in range(nproc):
+            pj, po = chk.path("jobs_%s.part%d.ndjson" % (tag, k)), chk.path("trace_%s.part%d.ndjson" % (tag, k))
+            # compiled joins are expensive: all seeds of one table pair stay in one process (it compiles once)
+            lib.write_ndjson(pj, plain[k * size:(k + 1) * size] + [j for j in comp if (j["compiled"] // 1000) % nproc == k])
+            parts.append((pj, po))
+        with concurrent.futures.ThreadPoolExecutor(max_workers=nproc) as ex:
+            list(ex.map(lambda a: lib.harness(["rel", a[0], a[1]], binary="bitrel", timeout=timeout), parts))
+        recs = []
+        for pj, po in parts:
+            recs += lib.read_ndjson(po)
+        lib.write_ndjson(op, recs)
     if len(recs) != len(jobs):
         raise lib.ToolError("harness returned %d records for %d jobs" % (len(recs), len(jobs)))
     res = lib.tlc("RelTrace", "MC_RelTrace.cfg", env={"TRACE": op}, workers=workers, timeout=timeout, coverage=False)
